@@ -889,8 +889,15 @@ end NXActionLearn
 
 namespace NXActionConnTrack
 def zero : V := .obj "NXActionConnTrack" [.nil, .num 0, .num 0, .num 0, .num 0, .bytes [], .num 0, .list []]
-def lenM : V → R (UInt16 × V)
-  | .obj "NXActionConnTrack" (h :: r) => do let l ← NXActionHeader.length h; same l (.obj "NXActionConnTrack" (h :: r))
+/-- Len(): header (10) + 14 + the CURRENT sizes of the nested actions; the result is stored in the header's Length.
+    `sub` is the interface dispatch Action.Len (one nesting level down). -/
+def lenWith (sub : V → R (UInt16 × V)) : V → R (UInt16 × V)
+  | .obj "NXActionConnTrack" [h, a, b, c, d, e, f, .list acts] => do
+    let (hl, h) ← NXActionHeader.lenM h           -- nil header: panic
+    let (ls, acts') ← mapM2 sub acts
+    let l := hl + 14 + sum16 ls
+    let h' ← NXActionHeader.setLength l h
+    .ok (l, .obj "NXActionConnTrack" [h', a, b, c, d, e, f, .list acts'])
   | _ => .panic
 
 /-- `for _, action := range a.actions { b, err := action.MarshalBinary(); if err … ; copy(data[n:], b); n += len(b) }`
@@ -903,9 +910,10 @@ def marshalActs (sub : V → R (Bytes × V)) : List V → Bytes → Nat → R (B
     let (buf'', as') ← marshalActs sub as buf' (n + ab.length)
     pure (buf'', a' :: as')
 
-def marshalWith (sub : V → R (Bytes × V)) : V → R (Bytes × V)
+def marshalWith (subLen : V → R (UInt16 × V)) (sub : V → R (Bytes × V)) (v : V) : R (Bytes × V) := do
+  let (l, v) ← lenWith subLen v                    -- make([]byte, int(a.Len()))
+  match v with
   | .obj "NXActionConnTrack" [h, .num fl, .num zs, .num zo, .num rt, .bytes pad, .num alg, .list acts] => do
-    let l ← NXActionHeader.length h                 -- make([]byte, int(a.Length))
     let hb ← NXActionHeader.bytes h
     let buf ← fill l.toNat [pCopy hb, pU16 fl, pU32 zs, pU16 zo, pU8 rt, pCopyAdv pad 3, pU16 alg]
     let (buf', acts') ← marshalActs sub acts buf 24
@@ -949,8 +957,8 @@ end NXActionConnTrack
 /-! ### interface Action: dispatch on the dynamic type -/
 namespace Action
 
-/-- Action.Len() -/
-def lenM (v : V) : R (UInt16 × V) :=
+/-- Action.Len() of every kind except conntrack -/
+def lenLeaf (v : V) : R (UInt16 × V) :=
   match v.kind with
   | "ActionHeader" => ActionHeader.lenM v
   | "ActionOutput" => ActionOutput.lenM v
@@ -965,7 +973,6 @@ def lenM (v : V) : R (UInt16 × V) :=
   | "ActionSetField" => ActionSetField.lenM v
   | "NXActionHeader" => NXActionHeader.lenM v
   | "NXActionConjunction" => NXActionConjunction.lenM v
-  | "NXActionConnTrack" => NXActionConnTrack.lenM v
   | "NXActionRegLoad" => NXActionRegLoad.lenM v
   | "NXActionRegMove" => NXActionRegMove.lenM v
   | "NXActionResubmit" => NXActionResubmit.lenM v
@@ -1014,13 +1021,22 @@ def marshalLeaf (v : V) : R (Bytes × V) :=
 
 /-- Action.MarshalBinary() with an explicit bound on the nesting of conntrack actions. Depth 0 is unreachable for
     values nested less deeply than the starting depth (generators keep the nesting below `encDepth`). -/
+def encDepth : Nat := 8
+
+/-- Action.Len() with an explicit bound on the nesting of conntrack actions -/
+def lenD : Nat → V → R (UInt16 × V)
+  | 0, _ => .panic
+  | d + 1, v =>
+    if v.kind = "NXActionConnTrack" then NXActionConnTrack.lenWith (lenD d) v
+    else lenLeaf v
+def lenM (v : V) : R (UInt16 × V) := lenD (encDepth + 1) v
+
 def marshalD : Nat → V → R (Bytes × V)
   | 0, _ => .panic
   | d + 1, v =>
-    if v.kind = "NXActionConnTrack" then NXActionConnTrack.marshalWith (marshalD d) v
+    if v.kind = "NXActionConnTrack" then NXActionConnTrack.marshalWith (lenD d) (marshalD d) v
     else marshalLeaf v
 
-def encDepth : Nat := 8
 def marshalM (v : V) : R (Bytes × V) := marshalD (encDepth + 1) v
 
 /-- UnmarshalBinary of every kind except conntrack, on the receiver `a` -/
@@ -1056,7 +1072,8 @@ def unmarshalLeaf (a : V) (data : Slice) : R V :=
 end Action
 
 namespace NXActionConnTrack
-def marshalM (v : V) : R (Bytes × V) := marshalWith (Action.marshalD Action.encDepth) v
+def lenM (v : V) : R (UInt16 × V) := lenWith (Action.lenD Action.encDepth) v
+def marshalM (v : V) : R (Bytes × V) := marshalWith (Action.lenD Action.encDepth) (Action.marshalD Action.encDepth) v
 end NXActionConnTrack
 
 /-- subtype ↦ new(T) of DecodeNxAction; subtypes not listed leave `a` nil -/
